@@ -297,6 +297,7 @@ static int count_sub(const std::string &tr, char kind) { int c = 0; size_t p = 0
 
 struct EvalOut { std::string canon, viol; uint64_t trace_hash; std::string trace; };
 static bool g_keep_trace = false;
+static std::map<std::string, size_t> g_sigcount;   // violations per signature in this process
 
 // Replay a call sequence on a fresh real hierarchy and a fresh reference, compare after every call.
 static EvalOut evaluate(int top, const std::vector<Op> &hist) {
@@ -338,7 +339,7 @@ static EvalOut evaluate(int top, const std::vector<Op> &hist) {
         while (true) { int c = G.sm[k]->currentState(); if (!G.sm[k]->isRunning() || c < 1) break; int sb = G.nodes[k].sub[c]; if (sb < 0) break; if (!G.sm[sb]->isRunning()) { stopped_sub = true; break; } k = sb; }
         if ((op.call == RUN1 || op.call == RUN2) && t1.empty() && r1 == 0 && stopped_sub) sig = "run-ignored-after-submachine-terminated";
         else {
-          // "-reentrant" only if the divergence is about the inner calls (traces agree once the !<result> marks are removed ... then they differ only there)
+          // suffix "-reentrant" only when the divergence lies in the inner calls themselves (traces agree once the !<result> marks are removed)
           auto strip = [](const std::string &t) { std::string o; for (size_t i = 0; i < t.size(); i++) { if (t[i] == '!') { i++; continue; } o += t[i]; } return o; };
           bool reent_specific = op.reent >= 0 && strip(t1) == strip(t2) && r1 == r2 && o1 == o2;
           // first differing token
@@ -363,6 +364,8 @@ static EvalOut evaluate(int top, const std::vector<Op> &hist) {
       }
     }
     if (!sig.empty()) {
+      std::string s0 = sig.substr(0, sig.find(' '));
+      if (g_sigcount[s0] >= 3) { out.viol = s0; return out; }     // already printed three replays of this signature: count only
       out.viol = sig + " machine=" + show_mach(TAB[top]) + " calls=[" + show_hist(hist) + "] diverges at call #" + std::to_string(i + 1) + " " + show_op(op) +
                  " REAL: " + t1 + "=> ret=" + std::to_string(r1) + " state(cur,last,next,Running/Stopped,Terminated per machine a,b,..)= " + o1 +
                  "REF: " + t2 + "=> ret=" + std::to_string(r2) + " state= " + o2 + (G.balance_viol.empty() ? "" : "BALANCE: " + G.balance_viol);
@@ -400,13 +403,13 @@ int main(int argc, char **argv) {
   if (part == 0) {
     printf("@INFO enumeration took %.1fs, table of %zu machine definitions\n", t_gen - (deadline - (getenv("VERIF_DEADLINE_S") ? atof(getenv("VERIF_DEADLINE_S")) : 600)), TAB.size());
     printf("@INFO machines: %zu selected; weights 1..%zu complete; weight %d: %zu of %zu canonical machines (nesting depth <= %d)\n", sel.size(), complete_w, last_w, sel.size() - sel_before_last, last_level_total, DMAX);
-    printf("@CAP machine cap %zu: every canonical machine of weight <= %zu is covered; of weight %d only %zu of %zu (interleaved over all structural shapes); heavier machines (<=3 states, <=3 routes/state, depth <= %d) are not enumerated\n",
+    printf("@CAP machine cap %zu: every canonical machine of weight <= %zu is selected; of weight %d only %zu of %zu (interleaved over all structural shapes); heavier machines (<=3 states, <=3 routes/state, depth <= %d) are not enumerated\n",
            cap, complete_w, last_w, sel.size() - sel_before_last, last_level_total, DMAX);
   }
 
   std::vector<Op> menu; for (int c = 0; c < 5; c++) menu.push_back(Op{c, -1}); for (int c = 0; c < 5; c++) for (int r = 0; r < 5; r++) menu.push_back(Op{c, r});
   size_t machines = 0, flat = 0, nested = 0, states = 0, transitions = 0, violations = 0, viol_flat = 0, viol_nested = 0, redet = 0, reent_evals = 0, maxdepth = 0, fixpoints = 0, samples = 0;
-  std::map<std::string, size_t> sigcount; std::unordered_set<uint64_t> hashes; size_t next_outcome = 1; bool capped = false;
+  std::map<std::string, size_t> &sigcount = g_sigcount; std::unordered_set<uint64_t> hashes; size_t next_outcome = 1; bool capped = false;
   for (size_t j = part; j < sel.size() && !capped; j += nparts) {
     if (hx::now_s() > deadline) { capped = true; printf("@CAP part %zu/%zu: deadline reached before machine #%zu of %zu (weight %d)\n", part, nparts, j, sel.size(), (int)TAB[sel[j]].weight); break; }
     int top = (int)sel[j]; G.nodes.clear(); add_nodes(top, -1, 0); make_hooks();
@@ -422,11 +425,11 @@ int main(int argc, char **argv) {
         hx::set_current(mtxt + " calls=[" + show_hist(c) + "]");
         bool want = hashes.size() + 1 == next_outcome || (samples < 3 && d + 1 == depth);
         g_keep_trace = want; EvalOut e = evaluate(top, c); transitions++; if (op.reent >= 0) reent_evals++;
-        if (hashes.insert(e.trace_hash).second && e.viol.empty() && g_keep_trace && hashes.size() == next_outcome) { next_outcome *= 4; printf("@OUTCOME %s\n", e.trace.c_str()); }
+        if (hashes.insert(e.trace_hash).second && e.viol.empty() && g_keep_trace && hashes.size() == next_outcome) { next_outcome *= 4; if (part == 0) printf("@OUTCOME %s\n", e.trace.c_str()); }   // ~10 sample outcomes in total; the count is distinct_traces
         if (!e.viol.empty()) {
           violations++; (is_flat ? viol_flat : viol_nested)++;
           std::string s = e.viol.substr(0, e.viol.find(' ')); size_t &n = sigcount[s];
-          if (++n <= 3) printf("@VIOL sig=%s :: %s\n", s.c_str(), e.viol.substr(s.size() + 1).c_str());
+          if (++n <= 3) printf("@VIOL sig=%s :: %s\n", s.c_str(), e.viol.size() > s.size() ? e.viol.substr(s.size() + 1).c_str() : "");
           continue;   // not expanded
         }
         if (seen.insert(e.canon).second) { states++; maxdepth = std::max(maxdepth, c.size()); next.push_back(c); lastnew = c;
